@@ -1,6 +1,7 @@
 SPECIFICATION Spec
 CONSTANTS
-  MaxDim = 3
+  Dims <- DimsQuick
+  MutDim = 3
   BigShapes <- NoBig
   BigHParts = 2
   BigWParts = 3
